@@ -3,7 +3,7 @@ operations, decided on the operation model (abstract interpretation of Process::
 constraint polynomials."""
 import re, collections
 from .mirutil import *
-from .mirsym import Interp, Term, Agg, Ptr, Opaque, Unanalysable, PanicReached, deref
+from .mirsym import Interp, Term, Agg, Ptr, Opaque, Unanalysable, PanicReached, deref, SlicePtr
 from .mirsym import Poly, Sup, Term, P
 from . import opmodel, procmodel, docspec
 from .rules_c04 import AirView, unit_multiple, doc_instances
@@ -697,6 +697,112 @@ def r8_bitwise_chiplet(ctx, F):
     ctx.floor("bitwise-operations-verified", n_ok, 2)
 
 
+def r9_memory_chiplet(ctx, F):
+    """Memory::write / Memory::read are interpreted for a scenario of accesses (two contexts, three addresses, repeated
+    accesses, reads before and after writes; concrete keys and clock values, symbolic words), Memory::fill_trace then yields
+    the chiplet rows; every consecutive pair of rows is substituted into the memory chiplet's transition constraints, which
+    must vanish; reads return the last word written (or zeros)."""
+    R = opmodel.restricted_air(F)
+    cs, ce = R["ranges"]["chiplets"]
+    chip = R["by_opcode"][0][cs:ce]
+    CH = F.const(r"^miden_air::trace::CHIPLETS_OFFSET$")
+    MO = F.const(r"^miden_air::trace::chiplets::MEMORY_TRACE_OFFSET$")
+    width = F.const(r"^miden_air::trace::chiplets::memory::TRACE_WIDTH$")
+    mem_adt = F.adt(r"^miden_processor::chiplets::memory::Memory$")
+    f_default = [k for k in F.fns if k.endswith("chiplets::memory::Memory@Default::default")]
+    f_read, f_write = F.fn(r"^miden_processor::chiplets::memory::Memory::read$"), F.fn(r"^miden_processor::chiplets::memory::Memory::write$")
+    f_fill = F.fn(r"^miden_processor::chiplets::memory::Memory::fill_trace$")
+    ctx_adt = F.adt(r"^miden_processor::system::ContextId$|^miden_processor::ContextId$")
+    ctx.inst(key="memory-scenario", nontrivial=True)
+    I = Interp(F)
+    procmodel.install_field(I)
+    rows = {}
+    holder = {"n": 0}
+    ov = lambda rx, m: I.overrides.insert(0, (re.compile(rx), m))
+    ov(r"TraceFragment::set$", lambda I_, a, f: (rows.setdefault(a[1], {}).__setitem__(a[2], a[3]), Agg([], "tuple"))[1])
+    ov(r"TraceFragment::len$", lambda I_, a, f: holder["n"])
+    ov(r"TraceFragment::width$", lambda I_, a, f: width)
+    mk_ctx = lambda v: Agg([v], "adt", ctx_adt["id"], ctx_adt["variants"][0]["name"])
+    word = lambda n: Agg([Poly.var("%s_%d" % (n, i)) for i in range(4)], "array")
+    # (kind, ctx, addr, clk, word)
+    scenario = [("w", 0, 4, 3, "W1"), ("r", 0, 4, 10, None), ("r", 0, 4, 11, None), ("r", 0, 7, 12, None), ("w", 0, 7, 70000, "W2"), ("w", 0, 7, 70001, "W3"),
+                ("r", 0, 7, 2 ** 31 + 5, None), ("w", 3, 4, 20, "W4"), ("r", 3, 4, 21, None), ("r", 3, 900, 22, None), ("w", 0, 4, 2 ** 31 + 9, "W5")]
+    try:
+        mem = I.call(f_default[0], []) if len(f_default) == 1 else None
+        if mem is None:
+            raise Unanalysable("Memory::default not found")
+        me = Ptr([mem], 0)
+        model = {}
+        for kind, c_, a_, k_, w_ in scenario:
+            holder["n"] += 1
+            if kind == "w":
+                wv = word(w_)
+                I.call(f_write.id, [me, mk_ctx(c_), a_, k_, wv])
+                model[(c_, a_)] = [repr(x) for x in wv.items]
+            else:
+                got = I.call(f_read.id, [me, mk_ctx(c_), a_, k_])
+                want = model.get((c_, a_), ["0"] * 4)
+                okr = [repr(x) for x in deref(got).items] == want
+                ctx.oblig(okr)
+                if not okr:
+                    ctx.violation("memory-read-value", f_read.loc(), "Memory::read(ctx %d, addr %d) at clk %d returns %s; the last word written there is %s" % (c_, a_, k_, [repr(x) for x in deref(got).items], want))
+        # the range-check requests of the memory chiplet (sibling of fill_trace: must use the same deltas)
+        rc = []
+        ov(r"RangeChecker::add_range_checks$", lambda I_, a, f: (rc.append((a[1], [deref(x) for x in (a[2].values() if isinstance(a[2], SlicePtr) else I_.as_slice(a[2]).values())])), Agg([], "tuple"))[1])
+        f_rc = F.fn(r"^miden_processor::chiplets::memory::Memory::append_range_checks$")
+        I.call(f_rc.id, [me, 1000, Ptr([Opaque("RangeChecker")], 0)])
+        I.call(f_fill.id, [mem, Ptr([Opaque("TraceFragment")], 0)])
+    except (Unanalysable, PanicReached) as e:
+        ctx.violation("UNANALYSABLE|memory-chiplet", f_fill.loc(), str(e)[:300])
+        return
+    n = holder["n"]
+    ok_rows = sorted(rows) == list(range(n)) and all(sorted(rows[i]) == list(range(width)) for i in rows)
+    ctx.oblig(ok_rows)
+    if not ok_rows:
+        ctx.violation("memory-rows-incomplete", f_fill.loc(), "fill_trace wrote rows %s with columns %s; expected %d rows of %d columns" % (sorted(rows), sorted(set(len(r) for r in rows.values())), n, width))
+        return
+    D0 = F.const(r"^miden_air::trace::chiplets::memory::D0_COL_IDX$")
+    D1 = F.const(r"^miden_air::trace::chiplets::memory::D1_COL_IDX$")
+    cval = lambda x: x.const_value() if isinstance(x, Poly) else x
+    got_rc = [(r_, [cval(v) for v in vals]) for r_, vals in rc]
+    want_rc = [(1000 + i, [cval(rows[i][D0]), cval(rows[i][D1])]) for i in range(n)]
+    okrc = got_rc == want_rc
+    ctx.oblig(okrc)
+    if not okrc:
+        diff = next((g, w) for g, w in zip(got_rc + [None] * n, want_rc) if g != w)
+        ctx.violation("memory-range-requests", f_rc.loc(), "Memory::append_range_checks requests %s; the delta limbs fill_trace writes for that row are %s: the range checker's multiplicities and the memory chiplet's lookups disagree" % diff)
+    # rows are sorted by (ctx, addr, clk)
+    order = sorted(range(len(scenario)), key=lambda i: (scenario[i][1], scenario[i][2], scenario[i][3]))
+    bad, n_eval = [], 0
+    for i in range(n - 1):
+        sub = {"c%d" % CH: 1, "c%d" % (CH + 1): 1, "c%d" % (CH + 2): 0, "n%d" % CH: 1, "n%d" % (CH + 1): 1, "n%d" % (CH + 2): 0}
+        for j in range(width):
+            sub["c%d" % (MO + j)] = rows[i][j]
+            sub["n%d" % (MO + j)] = rows[i + 1][j]
+        for ci, poly in enumerate(chip):
+            if not isinstance(poly, Poly):
+                continue
+            if not any(re.match(r"^[cn]\d+$", v) and MO <= int(v[1:]) < MO + width for v in poly.vars()):
+                continue
+            v = poly.subst(sub)
+            left = sorted(x for x in v.vars() if re.match(r"^[cnp]\d+$", x)) if isinstance(v, Poly) else ["?"]
+            if left:
+                continue
+            n_eval += 1
+            if not v.is_zero():
+                bad.append((i, cs + ci, str(v)[:160]))
+    ctx.oblig(not bad)
+    ctx.sample({"accesses": len(scenario), "rows": n, "row_pair_constraint_evaluations": n_eval,
+                "row_order": ["%s ctx%d addr%d clk%d" % scenario[i][:4] for i in order]})
+    if n_eval < (n - 1) * 10:
+        ctx.violation("ANCHOR-LOST|memory-constraints", f_fill.loc(), "only %d row-pair/constraint evaluations (at least %d expected)" % (n_eval, (n - 1) * 10))
+    if bad:
+        i, ci, v = bad[0]
+        a, b = scenario[order[i]], scenario[order[i + 1]]
+        ctx.violation("memory-row-vs-constraint", f_fill.loc(),
+                      "the rows Memory::fill_trace writes for the accesses %s and %s do not satisfy chiplet constraint #%d (%d violated evaluations): residual %s" % (a[:4], b[:4], ci, len(bad), v))
+
+
 def run(ctx, F):
     ctx.trusted += ["rustc MIR via mirfacts", "mirsym abstract interpreter and the abstract Process model (vlib/procmodel.py)", "docs/src/design as oracle"]
     ctx.assumptions += ["handler values the model treats as fresh (u32 limbs, memory, advice, hasher results) are not substituted: those constraints are counted as undecided",
@@ -709,6 +815,7 @@ def run(ctx, F):
     ctx.run_rule("C03-R5", "decoder trace append methods push once per column on every path", r5_decoder_rows, F)
     from . import rules_c12
     ctx.run_rule("C03-R8", "bitwise chiplet: the eight rows Bitwise::u32and / u32xor append for bit-symbolic operands satisfy every bitwise transition constraint (with the periodic masks of their row), and the returned value is the AND / XOR of the operands", r8_bitwise_chiplet, F)
+    ctx.run_rule("C03-R9", "memory chiplet: for a scenario of reads and writes (two contexts, repeated and first accesses, small and large clock gaps) the rows Memory::fill_trace writes satisfy every memory transition constraint pairwise, and reads return the last word written or zeros", r9_memory_chiplet, F)
     ctx.run_rule("C03-R7", "RangeChecker::add_range_checks counts every value once and records all values of a row, also when the row already has lookups (the b_range column of an honest trace must return to 1)", rules_c12.r5_range_conservation, F)
     ctx.run_rule("C03-R6b", "chiplet rows = hasher + bitwise + memory + kernel ROM + one padding row; component starts are the cumulative sums", r6b_chiplet_rows, F)
     ctx.run_rule("C03-R6", "trace length = next_power_of_two(max(range rows, clk, chiplet rows) + NUM_RAND_ROWS), independent of capacity hints", r6_trace_len, F)
